@@ -139,7 +139,9 @@ func rulePairDirect(c *Ctx) {
 			if _, ok := isCallTo(call, subFns...); ok {
 				args := callArgs(call.Common())
 				if b, isC := constBool(args[2]); isC && b {
-					roots[TopLevel(f)] = true
+					for _, r := range p.entryRoots(TopLevel(f), func(g *ssa.Function) bool { _, listed := subscribeTypeHandlers[fnName(g)]; return listed }) {
+						roots[r] = true
+					}
 				}
 			}
 		}
@@ -674,8 +676,10 @@ func rulePairMembership(c *Ctx) {
 			continue
 		}
 		name := fnName(f)
-		if TopLevel(f) == p.Fn("(*rescache.Cache).getSubscription") || TopLevel(f) == p.Fn("(*rescache.Cache).sendRequest") {
-			continue
+		if _, own := p.ownedBy(f, func(nm string) bool {
+			return nm == "(*rescache.Cache).getSubscription" || nm == "(*rescache.Cache).sendRequest"
+		}); own {
+			continue // covered by PAIR/cache-count
 		}
 		for _, site := range sites {
 			c.inst(1)
@@ -957,4 +961,43 @@ func rulePairThrottle(c *Ctx) {
 		}
 		c.check(bad == "", name, what, p.Pos(root.Pos()), fmt.Sprintf("%d full paths; every slot taken is freed exactly once", len(tr.Paths)), bad)
 	}
+}
+
+
+// entryRoots lifts a function to the entry points from which it is reached:
+// while it is an unexported helper (not stop(fn)) with static callers in the
+// repository, its callers take its place.
+func (p *Prog) entryRoots(fn *ssa.Function, stop func(*ssa.Function) bool) []*ssa.Function {
+	seen := map[*ssa.Function]bool{}
+	var out []*ssa.Function
+	var rec func(f *ssa.Function, depth int)
+	rec = func(f *ssa.Function, depth int) {
+		f = TopLevel(f)
+		if seen[f] {
+			return
+		}
+		seen[f] = true
+		if depth > 4 || stop(f) || f.Object() == nil || f.Object().Exported() {
+			out = append(out, f)
+			return
+		}
+		n := p.CG.Nodes[f]
+		var callers []*ssa.Function
+		if n != nil {
+			for _, e := range n.In {
+				if e.Caller.Func != nil && e.Site != nil && e.Site.Common().StaticCallee() == f && TopLevel(e.Caller.Func) != f && p.isRepoFn(TopLevel(e.Caller.Func)) {
+					callers = append(callers, e.Caller.Func)
+				}
+			}
+		}
+		if len(callers) == 0 {
+			out = append(out, f)
+			return
+		}
+		for _, cf := range callers {
+			rec(cf, depth+1)
+		}
+	}
+	rec(fn, 0)
+	return out
 }
